@@ -388,7 +388,10 @@ def run_case(desc, ctx):
         extreme = rng.random() < 0.3
         if extreme:
             losses, _ = extreme_losses(rng, n)
-            losses[np.isneginf(losses)] = -1e300
+            if rng.random() < 0.5:
+                losses[np.isneginf(losses)] = -1e300
+            elif np.any(np.isneginf(losses)):
+                cnt("bestbatch_histories_with_minus_infinity")      # -inf is the lowest loss there is: its point leads the elite
             cnt("extreme_histories")
         from black_it.samplers.best_batch import BestBatchSampler
 
